@@ -926,6 +926,10 @@ func parseBinOps(expr string, n *promParser.BinaryExpr) (src []Source) {
 			if n.Op == promParser.LAND && rhsConditional {
 				s.IsConditional = true
 			}
+			if n.Op == promParser.LUNLESS {
+				// What unless returns depends on what the right hand side returns.
+				s.AlwaysReturns = false
+			}
 			src = append(src, s)
 		}
 		if n.Op == promParser.LOR {
